@@ -16,7 +16,7 @@ func init() {
 			"(R6.1) the participant order that defines DKG indices and the order used to map qualified indices back to participants are both SortedByPublicKey(remaining ++ joining) of the stored state, and that sort compares keys only; " +
 			"(R6.2) the final group lists each qualified node under the very index its share was dealt for; (R6.3) every field of the final group comes from the stored (signed) terms, the share's public part or the explicit transition time, the seed being derived only when none is stored; " +
 			"(R6.5) the echo broadcast marks a bundle as seen, relays it and hands it to the protocol only after its signature verified. " +
-			"Not armed: a rule that agreed state must not depend on local nondeterminism would flag the transition time (computed from each node's own time.Now() at DKG end); that candidate finding (F13) has not been demonstrated against the real code, so it is documented in DESIGN.md and not checked.",
+			"(R6.4) no reading of the node's own clock flows into the group a node builds: the transition time handed to asGroup must derive from the agreed terms only — does NOT hold today (known finding F13, demonstrated: two nodes finishing on different sides of a round boundary hold different groups).",
 		RuleText:    "one obligation per ordering site, index use, group field and broadcast step",
 		Assumptions: []string{"kyber's Pedersen DKG is correct given consistent indices and reliable broadcast"},
 		Run:         runC06,
@@ -26,7 +26,7 @@ func init() {
 		Explanation: "Enumeration of crash points and bolt's own durability are NOT decided. Decided are structural necessary conditions of crash consistency: (R13.1) each beacon write and each DKG state write is a single bolt transaction, the finished record and the current record are written in the *same* transaction; " +
 			"(R13.2) files that are replaced during operation (group, share) are written via a temporary file and rename — NOT satisfied today: key.Save truncates the final path in place (known finding F9a); " +
 			"(R13.4) the finished DKG record is durable before the beacon process is told about the new epoch (so key files never run ahead of the database). " +
-			"Not armed: a restart-coherence check between share, group file and DKG database is absent from the code; that candidate finding (F9b) has not been demonstrated, so it is documented and not checked.",
+			"(R13.3) the restart path checks that the loaded share belongs to the loaded group (the share carries its epoch's public polynomial) — does NOT hold today (known finding F9b, demonstrated: a crash between the group-file and share-file writes restarts silently with the new group and the old share).",
 		RuleText:    "one obligation per durable write",
 		Assumptions: []string{"a bolt Update closure commits atomically"},
 		Run:         runC13,
